@@ -15,6 +15,7 @@ fn main() {
         Some("evm17") => evm::main(&args[2..]),
         Some("evm18") => evm18::main(&args[2..]),
         Some("verif") => verif::main(&args[2..]),
+        Some("access") => access::main(&args[2..]),
         _ => {
             eprintln!("usage: drive <subsystem> ...");
             std::process::exit(2);
